@@ -1,0 +1,321 @@
+//go:build verif
+
+package engine
+
+// Facade extension used by the verification harness (/verif), property C08: several shards
+// (time ranges) in several partitions behind the single-node query path. The shard mapper
+// hands one RemoteQuery per partition with the ids of its shards; the executor builds one
+// index scan per shard (SetInfosAndTraits) and merges the shards and the partitions with its
+// own exchange (merge / sorted merge / aggregate transforms); every index scan asks the store
+// for the plan of one shard (shard.CreateLogicalPlan). Nothing here is compiled without the
+// `verif` build tag.
+
+import (
+	"context"
+	"fmt"
+	"math"
+	"path/filepath"
+	"runtime/debug"
+	"sort"
+	"strings"
+	"sync/atomic"
+	"time"
+
+	"github.com/influxdata/influxdb/pkg/limiter"
+	"github.com/openGemini/openGemini/engine/executor"
+	"github.com/openGemini/openGemini/engine/hybridqp"
+	"github.com/openGemini/openGemini/engine/index/tsi"
+	"github.com/openGemini/openGemini/lib/config"
+	"github.com/openGemini/openGemini/lib/cpu"
+	"github.com/openGemini/openGemini/lib/errno"
+	"github.com/openGemini/openGemini/lib/index"
+	"github.com/openGemini/openGemini/lib/resourceallocator"
+	"github.com/openGemini/openGemini/lib/statisticsPusher/statistics"
+	"github.com/openGemini/openGemini/lib/util"
+	"github.com/openGemini/openGemini/lib/util/lifted/influx/influxql"
+	"github.com/openGemini/openGemini/lib/util/lifted/influx/meta"
+	"github.com/openGemini/openGemini/lib/util/lifted/influx/query"
+)
+
+// VerifOpenShardAt is VerifOpenShard for shard `shardID` of partition `ptID` holding the time
+// range [start, end) (nanoseconds), with a series index of its own.
+func VerifOpenShardAt(dir string, walParts int, ptID uint32, shardID uint64, start, end int64) (v *VerifShard, err error) {
+	var opened []func()
+	defer func() {
+		if r := recover(); r != nil {
+			err = fmt.Errorf("panic while opening shard: %v", r)
+		}
+		if err != nil {
+			for i := len(opened) - 1; i >= 0; i-- {
+				func() {
+					defer func() { _ = recover() }()
+					opened[i]()
+				}()
+			}
+		}
+	}()
+	const db, rp = "db0", "rp0"
+	dataPath := filepath.Join(dir, "data")
+	walPath := filepath.Join(dir, "wal")
+	lockPath := filepath.Join(dataPath, "LOCK")
+	indexPath := filepath.Join(dir, db, "index", "data")
+	ident := &meta.IndexIdentifier{OwnerDb: db, OwnerPt: ptID, Policy: rp}
+	ident.Index = &meta.IndexDescriptor{IndexID: shardID, IndexGroupID: shardID, TimeRange: meta.TimeRangeInfo{}}
+	clock := atomic.AddUint64(&verifClock, 1)
+	opts := new(tsi.Options).
+		Ident(ident).
+		Path(indexPath).
+		IndexType(index.MergeSet).
+		EngineType(config.TSSTORE).
+		StartTime(time.Unix(0, start)).
+		EndTime(time.Unix(0, end)).
+		Duration(time.Duration(end - start)).
+		LogicalClock(clock).
+		SequenceId(&verifSeq).
+		Lock(&lockPath)
+	ib := tsi.NewIndexBuilder(opts)
+	primary, err := tsi.NewIndex(opts)
+	if err != nil {
+		return nil, err
+	}
+	primary.SetIndexBuilder(ib)
+	closePrimary := true
+	opened = append(opened, func() {
+		if closePrimary {
+			_ = primary.Close()
+		}
+	})
+	rel, err := tsi.NewIndexRelation(opts, primary, ib)
+	if err != nil {
+		return nil, err
+	}
+	ib.Relations[uint32(index.MergeSet)] = rel
+	closePrimary = false
+	opened = append(opened, func() { _ = ib.Close() })
+	if err = ib.Open(); err != nil {
+		return nil, err
+	}
+	dur := &meta.DurationDescriptor{Tier: util.Hot, TierDuration: time.Hour}
+	tr := &meta.TimeRangeInfo{StartTime: time.Unix(0, start).UTC(), EndTime: time.Unix(0, end).UTC()}
+	sid := &meta.ShardIdentifier{ShardID: shardID, ShardGroupID: shardID, OwnerDb: db, OwnerPt: ptID, Policy: rp}
+	verifLimitersOnce.Do(func() {
+		if openShardsLimit == nil {
+			openShardsLimit = limiter.NewFixed(cpu.GetCpuNum())
+		}
+		if replayWalLimit == nil {
+			replayWalLimit = limiter.NewFixed(cpu.GetCpuNum())
+		}
+		_ = resourceallocator.InitResAllocator(math.MaxInt64, 1, 1, resourceallocator.GradientDesc, resourceallocator.ChunkReaderRes, 0, 0)
+		_ = resourceallocator.InitResAllocator(math.MaxInt64, 1, 1, resourceallocator.GradientDesc, resourceallocator.ShardsParallelismRes, 0, 0)
+		_ = resourceallocator.InitResAllocator(math.MaxInt64, 1, 1, resourceallocator.GradientDesc, resourceallocator.SeriesParallelismRes, 0, 0)
+	})
+	o := verifEngineOptions()
+	sh := NewShard(dataPath, walPath, &lockPath, sid, dur, tr, o, config.TSSTORE, nil)
+	if walParts > 0 {
+		sh.wal = NewWAL(walPath, &lockPath, sid.ShardID, o.WalSyncInterval, o.WalEnabled, o.WalReplayParallel, walParts, o.WalReplayBatchSize)
+	}
+	sh.indexBuilder = ib
+	if err = sh.OpenAndEnable(nil); err != nil {
+		_ = sh.Close()
+		return nil, err
+	}
+	return &VerifShard{sh: sh, ib: ib, Dir: dir}, nil
+}
+
+// VerifPlacedShard is a shard with its place in the deployment.
+type VerifPlacedShard struct {
+	Shard   *VerifShard
+	PtID    uint32
+	ShardID uint64
+}
+
+// verifMultiStore: the store side of the local-storage query path over several shards.
+type verifMultiStore struct {
+	shards map[uint32]map[uint64]*shard
+}
+
+func (s *verifMultiStore) ReportLoad() {}
+func (s *verifMultiStore) CreateLogicPlan(ctx context.Context, db string, ptId uint32, shardID []uint64, sources influxql.Sources, schema hybridqp.Catalog) (hybridqp.QueryNode, error) {
+	qs, ok := schema.(*executor.QuerySchema)
+	if !ok {
+		return nil, fmt.Errorf("unexpected schema type %T", schema)
+	}
+	if len(shardID) != 1 {
+		return nil, fmt.Errorf("verif multi store: one shard per index scan expected, got %v", shardID)
+	}
+	sh := s.shards[ptId][shardID[0]]
+	if sh == nil {
+		return nil, nil
+	}
+	return sh.CreateLogicalPlan(ctx, sources, qs)
+}
+func (s *verifMultiStore) ScanWithSparseIndex(ctx context.Context, db string, ptId uint32, shardIDS []uint64, schema hybridqp.Catalog) (hybridqp.IShardsFragments, error) {
+	return nil, fmt.Errorf("verif store: no sparse index")
+}
+func (s *verifMultiStore) GetIndexInfo(db string, ptId uint32, shardID uint64, schema hybridqp.Catalog) (interface{}, error) {
+	return nil, fmt.Errorf("verif store: no column store")
+}
+func (s *verifMultiStore) RowCount(db string, ptId uint32, shardIDS []uint64, schema hybridqp.Catalog) (int64, error) {
+	return 0, fmt.Errorf("verif store: no row count")
+}
+func (s *verifMultiStore) UnrefEngineDbPt(db string, ptId uint32) {}
+func (s *verifMultiStore) GetShardDownSampleLevel(db string, ptId uint32, shardID uint64) int {
+	return 0
+}
+
+// verifMultiGroup is the shard mapper: verifShardGroup with one RemoteQuery per partition.
+type verifMultiGroup struct {
+	verifShardGroup
+	pts    []uint32
+	shards map[uint32][]uint64
+}
+
+func (g *verifMultiGroup) MapShards(stmt *influxql.SelectStatement, t influxql.TimeRange, opt query.SelectOptions, condition influxql.Expr) (query.ShardGroup, error) {
+	if _, err := g.verifShardGroup.MapShards(stmt, t, opt, condition); err != nil {
+		return nil, err
+	}
+	return g, nil
+}
+
+func (g *verifMultiGroup) GetETraits(ctx context.Context, sources influxql.Sources, schema hybridqp.Catalog) ([]hybridqp.Trait, error) {
+	opts, ok := schema.Options().(*query.ProcessorOptions)
+	if !ok {
+		return nil, fmt.Errorf("unexpected options type")
+	}
+	src := g.GetSources(sources)
+	var out []hybridqp.Trait
+	for _, pt := range g.pts {
+		o := *opts
+		o.Sources = src
+		out = append(out, &executor.RemoteQuery{Database: "db0", PtID: pt, NodeID: 0, ShardIDs: append([]uint64(nil), g.shards[pt]...), Opt: o})
+	}
+	opts.Sources = src
+	return out, nil
+}
+
+func (g *verifMultiGroup) CreateLogicalPlan(ctx context.Context, sources influxql.Sources, schema hybridqp.Catalog) (hybridqp.QueryNode, error) {
+	eTraits, err := g.GetETraits(ctx, sources, schema)
+	if len(eTraits) == 0 || err != nil {
+		return nil, err
+	}
+	builder := executor.NewLogicalPlanBuilderImpl(schema)
+	plan, err := builder.CreateSeriesPlan()
+	if err != nil {
+		return nil, err
+	}
+	if plan, err = builder.CreateMeasurementPlan(plan); err != nil {
+		return nil, err
+	}
+	if plan, err = builder.CreateScanPlan(plan); err != nil {
+		return nil, err
+	}
+	if plan, err = builder.CreateShardPlan(plan); err != nil {
+		return nil, err
+	}
+	if plan.Schema().Options().CanQueryPushDown() {
+		nodeTraits, ok := ctx.Value(hybridqp.NodeTrait).(*[]hybridqp.Trait)
+		if !ok {
+			return nil, errno.NewError(errno.NoNodeTraits)
+		}
+		*nodeTraits = append(*nodeTraits, eTraits...)
+		return plan, nil
+	}
+	return builder.CreateNodePlan(plan, eTraits)
+}
+
+// VerifQueryMulti runs one SELECT over the given shards (every partition with its shards in
+// ascending id order) through the single-node query path.
+func VerifQueryMulti(placed []VerifPlacedShard, q string, fields map[string]influxql.DataType, tags []string, o VerifQueryOptions) (out []VerifPart, err error) {
+	verifQueryMu.Lock()
+	defer verifQueryMu.Unlock()
+	defer func() {
+		if r := recover(); r != nil {
+			err = fmt.Errorf("panic while querying: %v\n%s", r, debug.Stack())
+		}
+	}()
+	verifLocalStoreOnce.Do(func() {
+		executor.SetLocalStorageForQuery(verifLocalStore)
+		executor.InitLocalStoreTemplatePlan()
+	})
+	store := &verifMultiStore{shards: map[uint32]map[uint64]*shard{}}
+	g := &verifMultiGroup{shards: map[uint32][]uint64{}}
+	g.fields, g.tags = fields, map[string]struct{}{}
+	for _, t := range tags {
+		g.tags[t] = struct{}{}
+	}
+	for _, p := range placed {
+		if store.shards[p.PtID] == nil {
+			store.shards[p.PtID] = map[uint64]*shard{}
+			g.pts = append(g.pts, p.PtID)
+		}
+		store.shards[p.PtID][p.ShardID] = p.Shard.sh
+		g.shards[p.PtID] = append(g.shards[p.PtID], p.ShardID)
+	}
+	sort.Slice(g.pts, func(a, b int) bool { return g.pts[a] < g.pts[b] })
+	for _, ids := range g.shards {
+		sort.Slice(ids, func(a, b int) bool { return ids[a] < ids[b] })
+	}
+	executor.SetLocalStorageForQuery(store)
+	defer executor.SetLocalStorageForQuery(verifLocalStore)
+
+	p := influxql.NewParser(strings.NewReader(q))
+	defer p.Release()
+	yy := influxql.NewYyParser(p.GetScanner(), p.GetPara())
+	yy.ParseTokens()
+	pq, err := yy.GetQuery()
+	if err != nil {
+		return nil, fmt.Errorf("parse: %w", err)
+	}
+	if len(pq.Statements) != 1 {
+		return nil, fmt.Errorf("expected one statement")
+	}
+	stmt, ok := pq.Statements[0].(*influxql.SelectStatement)
+	if !ok {
+		return nil, fmt.Errorf("not a select statement")
+	}
+	stmt.OmitTime = true
+	if o.ChunkSize <= 0 {
+		o.ChunkSize = 1024
+	}
+	rc := make(chan query.RowsChan)
+	sopt := query.SelectOptions{ChunkSize: o.ChunkSize, ChunkedSize: 1 << 30, RowsChan: rc, MaxQueryParallel: o.MaxParallel}
+	if o.ChunkedSize > 0 {
+		sopt.Chunked, sopt.ChunkedSize = true, o.ChunkedSize
+	}
+	ctx := context.WithValue(context.Background(), query.QueryDurationKey, (*statistics.SQLSlowQueryStatistics)(nil))
+	ctx = context.WithValue(ctx, query.QueryIDKey, []uint64{1})
+	ex, err := executor.Select(ctx, stmt, g, sopt)
+	if err != nil {
+		return nil, err
+	}
+	if ex == nil {
+		return nil, nil
+	}
+	pe, ok := ex.(*executor.PipelineExecutor)
+	if !ok {
+		return nil, fmt.Errorf("unexpected executor %T", ex)
+	}
+	ec := make(chan error, 1)
+	go func() {
+		defer close(rc)
+		defer func() {
+			if r := recover(); r != nil {
+				ec <- fmt.Errorf("panic in executor: %v\n%s", r, debug.Stack())
+			}
+		}()
+		var st int32
+		c := context.WithValue(context.Background(), index.QueryIndexState, &st)
+		ec <- pe.ExecuteExecutor(c)
+	}()
+	for r := range rc {
+		for _, row := range r.Rows {
+			s := VerifPart{VerifSeries: VerifSeries{Name: row.Name, Tags: row.Tags, Columns: row.Columns}, Partial: row.Partial}
+			s.Values = append(s.Values, row.Values...)
+			out = append(out, s)
+		}
+	}
+	if e := <-ec; e != nil {
+		return out, e
+	}
+	return out, nil
+}
